@@ -6,7 +6,7 @@ from mkprops import write
 IMP = """From Coq Require Import List Arith Bool NArith.
 From FFSM2 Require Import Model.TaskList Model.BitArray Model.BitStream Model.Plan Model.Ancestors Model.Machine
   Proofs.BitArrayProofs Proofs.TaskListProofs Proofs.TaskListRun Proofs.PlanProofs Proofs.MachineFrame Proofs.MachinePlan Proofs.MachineLife Proofs.GuardProofs Proofs.CycleProofs Proofs.PlanStep
-  Proofs.SerialProofs Proofs.LogProofs Proofs.MachineTop Model.Multi Generated.InitFacts Proofs.ConstructProofs Proofs.LifeMonitor Proofs.ActivationRounds Proofs.IndexSafety Proofs.FeatureProofs Model.Script Proofs.Contract Proofs.Histories Proofs.StatusBits Proofs.Worlds Model.Cxx Generated.LeafCode Proofs.LeafTactics Proofs.LeafConsts Proofs.LeafCodeTaskList Proofs.LeafCodeStream Proofs.LeafCodeWide.
+  Proofs.SerialProofs Proofs.LogProofs Proofs.MachineTop Model.Multi Generated.InitFacts Proofs.ConstructProofs Proofs.LifeMonitor Proofs.ActivationRounds Proofs.IndexSafety Proofs.FeatureProofs Model.Script Proofs.Contract Proofs.Histories Proofs.StatusBits Proofs.Worlds Model.Cxx Generated.LeafCode Proofs.LeafTactics Proofs.LeafConsts Proofs.LeafCodeTaskList Proofs.LeafCodeStream Proofs.LeafCodeWide Proofs.LeafCodePlan Proofs.LeafCodePlanRemove Proofs.LeafCodePlanAppend Proofs.LeafCodePlanInv.
 Import ListNotations."""
 
 VOC = ("Vocabulary: Ready cfg s a = the machine is at a point where requests are processed (or between API calls) with state a < n active, "
@@ -283,6 +283,17 @@ SPECS["C10"][1].extend([
    ("C10_source_every_history", "src_TaskList_every_history", "over whole histories: any in-contract sequence of emplace / remove / clear from a freshly constructed list, executed by running the translated member functions one after the other on the object (src_run; None would be a fault), never faults and yields, object for object, the model's run - to which the invariant (tl_run_FL) and the no-leak / exact-capacity theorem (emplace_all_spec) above apply"),
 ])
 
+_PLT = ("the tie to the source, by proof (DESIGN.md 4.7): the body of PlanT<Args>::%s as tools/leafcode.py translates it from clang's typed AST of /repo's current plan_1.inl on every run - the member "
+        "functions of the sub-objects it calls (TaskListT::emplace / remove / count, StaticArrayT::operator[], PlanT::linkTask) inlined at the call site, running in _planData.tasks / _planData.taskLinks, "
+        "so the term is everything the call executes - run in the interpreter of Model/Cxx.v on any plan data satisfying the plan invariant PlanInv (which pd_init establishes and every plan operation "
+        "preserves: plan_append_spec, plan_remove_spec above) stays inside tasks and taskLinks and computes exactly the model's %s, for every capacity up to 255")
+SPECS["C10"][1].extend([
+   ("C10_source_plan_append_is_the_model", "src_Plan_append_inv", _PLT % ("append(origin, destination)", "plan_append (capacity test, planExists, slot allocation, linking at the end of the plan order)")),
+   ("C10_source_plan_remove_is_the_model", "src_Plan_remove_inv", _PLT % ("remove(index)", "plan_remove (unlinking from the plan order, clearing the link, returning the slot)")),
+   ("C10_source_plan_emptiness_test_is_the_model", "src_Plan_nonempty_inv", "explicit operator bool() of PlanT, as translated from the current source: true exactly when the plan order is non-empty"),
+   ("C10_source_plan_every_history", "src_Plan_every_history", "over whole histories: any in-contract sequence of append / remove-a-task-of-the-plan from a freshly constructed PlanDataT, executed by running the translated member functions one after the other on the object (src_prun; None would be a fault), never faults, returns what the model returns (the bool of every append) and leaves, object for object, the model's plan data - which satisfies PlanInv, so the capacity / order / no-leak statements of this file describe what the code in /repo does"),
+])
+
 _NF = ("index safety of the code itself (DESIGN.md 4.7): the interpreter of Model/Cxx.v returns a fault for an element access outside its array, a shift by a negative amount or by at least the width, "
        "a signed result outside its type and a division by zero; this theorem says the body of %s, as translated from clang's typed AST of /repo's current source on every run, returns a result - no fault - "
        "for every argument the library's own assertions admit (and computes the model's function)")
@@ -293,6 +304,8 @@ SPECS["C18"][1].extend([
    ("C18_source_read32_never_faults", "src_read32", _NF % "BitReadStreamT<>::read<W>(), W <= 32"),
    ("C18_source_tasklist_emplace_never_faults", "src_TaskList_emplace_FL", _NF % "TaskListT<void, N>::emplace() on every list satisfying the free-list invariant"),
    ("C18_source_tasklist_remove_never_faults", "src_TaskList_remove_FL", _NF % "TaskListT<void, N>::remove() on every list satisfying the free-list invariant"),
+   ("C18_source_plan_append_never_faults", "src_Plan_append_inv", _NF % "PlanT<>::append() (TaskListT::emplace and linkTask inlined) on every plan data satisfying the plan invariant"),
+   ("C18_source_plan_remove_never_faults", "src_Plan_remove_inv", _NF % "PlanT<>::remove() (TaskListT::remove inlined) on every plan data satisfying the plan invariant"),
 ])
 
 _EPS = "over whole histories: every update(), react(), immediateChangeTo() and immediateChangeWith() of every in-contract history processes requests exactly once, from a Ready state reached by callbacks that applied no transition - so every statement of this file made for process_request on a Ready state holds for every processing step of every history"
